@@ -58,7 +58,7 @@ PROPS = {
     # behaviour outside the listed properties (spec/FxContractXtra.tla); NOT registered in MANIFEST.json
     'X01': {'unclaimed': 'extra', 'chunk': 10000}, 'X02': {'unclaimed': 'extra'}, 'X03': {'unclaimed': 'extra'}, 'X04': {'unclaimed': 'extra'},
     'X05': {'unclaimed': 'extra', 'simulate': {'quick': 3000, 'thorough': 60000}, 'sim_module': 'FxClosureGen', 'nofuzz': True,
-            'e1': {'module': 'MC_Closure', 'instances': {'quick': [(8, 2, 3)], 'thorough': [(8, 2, 3), (10, 2, 3)]}}},
+            'e1': {'module': 'MC_Closure', 'instances': {'quick': [(8, 2, 3)], 'thorough': [(8, 2, 3), (10, 3, 3)]}}},
     'C17': {'chunk': 20000, 'e1': {'module': 'MC_Laws', 'instances': {'quick': [(6, 2, 1)], 'thorough': [(6, 2, 1), (8, 2, 3)]}}, 'simulate': {'quick': 4000, 'thorough': 150000}},
     'C05': {'chunk': 8000}, 'C16': {'chunk': 8000},
     'C14': {'chunk': 10000}, 'C19': {'chunk': 5000}, 'C20': {'chunk': 4000},
